@@ -155,6 +155,24 @@ func checkC09(c *Ctx) {
 			}
 		}
 	}
+	// ---- loop-carried counters advance on every iteration (deviance rule)
+	c.Rule("C09.continue", "L-CONTINUE (deviance, 184 of 185 loops on the reference tree): a `continue` in a loop body does not skip the counter updates (x++, x += k of a variable declared outside the loop) that end the body — the shape of 'the fast arm skips a block and forgets to advance the index the other arm advances'. Listed exception: computeLagrangeBasis, whose d deliberately counts the factors that were not skipped", 150)
+	{
+		loops, finds := continueSkipsCounter(p1)
+		c.Instance("C09.continue", loops)
+		exceptions := map[string]string{"computeLagrangeBasis|d": "d is the degree reached so far: it counts the factors actually multiplied, the skipped index l contributes none"}
+		for _, f := range finds {
+			parts := strings.SplitN(f, "|", 3)
+			fn := parts[0]
+			short := fn[strings.LastIndex(fn, ".")+1:]
+			if _, ok := exceptions[short+"|"+parts[1]]; ok {
+				continue
+			}
+			pk := fn[:strings.LastIndex(fn, ".")]
+			c.Ob("C09.continue", pk, fn, "continue-keeps-counter("+parts[1]+")", parts[2], false, fn+": the continue at "+parts[2]+" skips the update of "+parts[1]+" that ends the loop body: iterations taking that path do not advance "+parts[1])
+		}
+		c.Ob("C09.continue", "-", "-", "loops-with-trailing-updates-analysed", "-", loops > 0, "no loop analysed")
+	}
 	c.Assume("bit-equality of assembly and Go results is not decided: assembly is a trusted base")
 	c.Trust("the assembly kernels process exactly the element range they are given")
 }
